@@ -410,17 +410,32 @@ func ruleSyncBeforeMerge(c *eng.Ctx) {
 		}
 		// local closures that record: setAsyncErr := func(err error) { asyncErr = err; … }
 		recorders := map[types.Object]bool{}
+		mentionsRecorder := func(nd ast.Node) bool {
+			found := false
+			ast.Inspect(nd, func(x ast.Node) bool {
+				if id, ok := x.(*ast.Ident); ok && recorders[info.Uses[id]] {
+					found = true
+				}
+				return !found
+			})
+			return found
+		}
 		if retVar != nil {
-			ast.Inspect(fi.Decl.Body, func(m ast.Node) bool {
-				if as, ok := m.(*ast.AssignStmt); ok && len(as.Lhs) == 1 && len(as.Rhs) == 1 {
-					if lit, ok := ast.Unparen(as.Rhs[0]).(*ast.FuncLit); ok && assigns(lit.Body, retVar) {
-						if o := eng.ObjOf(info, as.Lhs[0]); o != nil {
-							recorders[o] = true
+			// to a fixed point: a closure that calls a recording closure records as well
+			for changed := true; changed; {
+				changed = false
+				ast.Inspect(fi.Decl.Body, func(m ast.Node) bool {
+					if as, ok := m.(*ast.AssignStmt); ok && len(as.Lhs) == 1 && len(as.Rhs) == 1 {
+						if lit, ok := ast.Unparen(as.Rhs[0]).(*ast.FuncLit); ok && (assigns(lit.Body, retVar) || mentionsRecorder(lit.Body)) {
+							if o := eng.ObjOf(info, as.Lhs[0]); o != nil && !recorders[o] {
+								recorders[o] = true
+								changed = true
+							}
 						}
 					}
-				}
-				return true
-			})
+					return true
+				})
+			}
 		}
 		records := func(nd ast.Node) bool {
 			if retVar == nil {
